@@ -339,8 +339,10 @@ func (n *RegexNode) finalOptimize() *RegexNode {
 		// we've already outlined is problematic.
 		node := rootNode.Children[0] // skip implicit root capture node
 		atomicByAncestry := true     // the root is implicitly atomic because nothing comes after it (same for the implicit root capture)
+		insideAtomic := false        // a lazy loop inside an atomic group is not extended by failures after the group
 		for {
 			if node.T == NtAtomic {
+				insideAtomic = true
 				node = node.Children[0]
 				continue
 			} else if node.T == NtConcatenate {
@@ -349,7 +351,7 @@ func (n *RegexNode) finalOptimize() *RegexNode {
 				continue
 			} else if node.N == math.MaxInt32 &&
 				((node.T == NtOneloop || node.T == NtOneloopatomic || node.T == NtNotoneloop || node.T == NtNotoneloopatomic || node.T == NtSetloop || node.T == NtSetloopatomic) ||
-					((node.T == NtOnelazy || node.T == NtNotonelazy || node.T == NtSetlazy) && !atomicByAncestry)) {
+					((node.T == NtOnelazy || node.T == NtNotonelazy || node.T == NtSetlazy) && !atomicByAncestry && !insideAtomic)) {
 
 				if node.Parent != nil && node.Parent.T == NtConcatenate {
 					node.Parent.Children = slices.Insert(node.Parent.Children, 1, &RegexNode{T: NtUpdateBumpalong, Options: node.Options, Parent: node.Parent})
